@@ -107,8 +107,13 @@ def replay(ck, em, rec, rng):
             continue
         with dask.config.set(scheduler="synchronous"):
             Xd = da.from_array(X, chunks=(comp, X.shape[1]))
-            dd = np.asarray(m.transform(Xd).compute()) / S2
-            pd = np.asarray(m.predict(Xd).compute()) if hasattr(m.predict(Xd), "compute") else np.asarray(m.predict(Xd))
+            # (asked lazily; evaluated after the machine was given other centroids, which are then put back: the
+            # answer is that of the centroids the machine had when asked)
+            lazy_d, lazy_p = m.transform(Xd), m.predict(Xd)
+            m.centroids_ = C[::-1] * 1.5 + S
+            dd = np.asarray(dask.compute(lazy_d)[0]) / S2
+            pd = np.asarray(dask.compute(lazy_p)[0])
+            m.centroids_ = C.copy()
         if dd.shape != exp_d.shape or not allclose(dd, exp_d):
             bad("DistancesAreSquaredEuclidean", "transform(dask %s): expected %s, observed %s" % (comp, exp_d.tolist(), dd.tolist()))
             continue
